@@ -315,3 +315,32 @@ Proof.
     rewrite pos_in_app by exact Hy. rewrite app_length. cbn [length]. lia.
   - intros x Hx. unfold key. rewrite Ho. apply pos_in_absent. exact Hx.
 Qed.
+
+(** ** the walk does not depend on data, nor on nodes outside the lists *)
+Lemma walk_transfer (s s' : store) :
+  TreeInv s ->
+  (forall n it, get s n = Some it -> listed_seq s' n = listed_seq s n) ->
+  forall n l, Walk s' n l -> (exists it, get s n = Some it) -> Walk s n l.
+Proof.
+  intros T Hseq. fix IH 3. intros n l H [it Hn].
+  destruct H as [n it' ls Hn' Hls].
+  apply (walk_node s n it ls Hn).
+  rewrite (Hseq n it Hn) in Hls.
+  assert (Hlive : forall c, In c (listed_seq s n) -> exists cit, get s c = Some cit).
+  { intros c Hc. eapply lists_live_child; [exact T | apply listed_seq_lists; exact Hc]. }
+  revert Hlive. induction Hls as [|c lc cs lss Hc Hrest IHrest]; intros Hlive; constructor.
+  - apply IH; [exact Hc | apply Hlive; left; reflexivity].
+  - apply IHrest. intros c' Hc'. apply Hlive. right. exact Hc'.
+Qed.
+
+Theorem preorder_stable (s s' : store) :
+  TreeInv s -> TreeInv s' -> sroot s' = sroot s ->
+  (forall n it, get s n = Some it -> listed_seq s' n = listed_seq s n) ->
+  preorder s' = preorder s.
+Proof.
+  intros T T' Hr Hseq.
+  pose proof (preorder_walk s' T') as W'. rewrite Hr in W'.
+  destruct (ti_root s T) as [rit [Hroot _]].
+  pose proof (walk_transfer s s' T Hseq _ _ W' (ex_intro _ rit Hroot)) as W.
+  eapply walk_fun; [exact W | apply preorder_walk; exact T].
+Qed.
